@@ -4,7 +4,16 @@
 // it is compiled only with -tags verif and adds no code.
 package rel
 
+//@ globalfact None None is EmptySet
+//@ globalfact False False is EmptySet
+//@ globalfact True True is TrueSet
+
 // ---- String (value_set_str.go) ----------------------------------------------------------------
+
+//@ func NewStringCharTuple(at, char)
+//@   tags C10
+//@   pure
+//@   ensures result.at == at && result.char == char
 
 //@ func (String).index(s; pos)
 //@   tags C10
@@ -12,19 +21,43 @@ package rel
 //@   ensures result == ((0 <= pos - s.offset && pos - s.offset <= len(s.s)) ? pos - s.offset : -1)
 
 //@ func (String).Count(s)
+//@   tags C10, C01
+//@   pure
+//@   requires validString(s)
+//@   ensures[C01] result == len(s.s) - cntNeg(row(s.s), s.s.off, s.s.off + len(s.s))
+
+//@ func (String).Has(s; value)
 //@   tags C10
 //@   pure
-//@   ensures result == len(s.s) - s.holes
+//@   requires validString(s)
+//@   ensures[C01] den: result == memString(s, value)
 
 //@ func (String).with(s; at, char)
 //@   tags C10
 //@   assigns fresh-only
 //@   requires validString(s)
+//@   requires char >= 0
+//@   ensures[C02] valid: validSet(result)
+//@   ensures[C01] den: forall x: Val :: mem(result, x) <==> (memString(s, x) || (char >= 0 && eq(x, mkval(rel.StringCharTuple, at, char))))
+
+//@ func (String).Without(s; value)
+//@   tags C10
+//@   assigns fresh-only
+//@   requires validString(s)
+//@   ensures[C02] valid: validSet(result)
+//@   ensures[C01] den: forall x: Val :: mem(result, x) <==> (memString(s, x) && !eq(x, value))
+
+//@ func newGenericSetFromSet(s)
+//@   trusted
+//@   assigns fresh-only
+//@   ensures result != nil && !(result is String) && !(result is Bytes) && !(result is Array)
+//@   ensures forall x: Val :: mem(result, x) <==> mem(s, x)
+
+//@ interface Set.With(s; v)
+//@   assigns fresh-only
+//@   ensures result != nil && validSet(result)
+//@   ensures forall x: Val :: mem(result, x) <==> (mem(s, x) || eq(x, v))
 
 //@ func NewOffsetString(s, offset)
 //@   tags C10
 //@   assigns nothing
-
-//@ func asString(values)
-//@   tags C10
-//@   assigns fresh-only
